@@ -333,7 +333,7 @@ pub fn truth(reg: &Registry, s: &dyn Subject, p: &Ov, run: &Run) -> Vec<Untrue> 
 
 /// The type whose body is read at a location: `Option` / `Box` and container-level `from` / `try_from` are
 /// transparent (the intermediate type is deserialized at the same location).
-fn through_conv(defs: &Defs, t: &Ty) -> Ty {
+pub fn through_conv(defs: &Defs, t: &Ty) -> Ty {
     let mut t = strip(t);
     for _ in 0..32 {
         match &t {
